@@ -65,7 +65,7 @@ func c11Build(base []chordlang.Tok, ch *mc.Chooser) string {
 				if rt, _, _ := chordlang.Tokenize(prev.Val + t.Val); len(rt) != 2 || rt[0].Val != prev.Val || rt[1].Val != t.Val || prev.Kind == "UNDERSCORE" && false {
 					canon = " "
 				}
-				opts := []string{canon, " ", "\t", "\n", " ;x y\n", "  ", "\n\n", ";\n", ";c\n  ", ";a\n\t;b\n", "\t;c\n\n", "\r\n"}
+				opts := []string{canon, " ", "\t", "\n", " ;x y\n", "  ", "\n\n", ";\n", ";c\n  ", ";a\n\t;b\n", "\t;c\n\n", "\r\n", "\r", ";x\ry z\n", " ;\r\n"}
 				b.WriteString(opts[ch.Choose(len(opts))])
 			}
 		}
@@ -87,7 +87,7 @@ func c11Build(base []chordlang.Tok, ch *mc.Chooser) string {
 			}
 		case "NUMBER":
 			if inValues {
-				txt = []string{"", "0", "00"}[ch.Choose(3)] + txt
+				txt = []string{"", "0", "00", "0000000000000000000", "000000000000000000000000000000"}[ch.Choose(5)] + txt
 			}
 		case "SHARP":
 			txt = []string{"#", "♯"}[ch.Choose(2)]
